@@ -22,7 +22,16 @@ pub fn run(ctx: &Ctx) -> i32 {
         let mut acc = Acc::new();
         for k in 0..per_shard {
             let mut rng = Rng::derive(ctx.seed, 4_000 + shard as u64, k as u64);
-            let c = make_case(&mut rng, &prof, None, None);
+            let mut c = make_case(&mut rng, &prof, None, None);
+            if k % 16 == 15 {
+                // hand-written conforming family: frames too big for an addi, built with lui / li
+                let s = crate::shapes::big_frame_family(&mut rng);
+                acc.note("shapes", s.name);
+                c.g.prog = s.prog;
+                c.g.base = c.g.prog.clone();
+                c.g.funcs.clear();
+                c.printed = crate::print::print(&c.g.prog, &crate::print::Style::plain(), &mut Rng::new(1));
+            }
             acc.evaluations += 1;
             let n_ins = c.g.prog.n_ins();
             acc.count("instructions_generated", n_ins as u64);
